@@ -35,6 +35,9 @@ STR_KEYWORDS = {"DECAY": "Decay", "ENDDECAY": "Enddecay", "END": "End", "DEFINE"
                 "JETSETPAR": "JetSetPar", "MODELALIAS": "ModelAlias", "PHOTOS": "PHOTOS", "YESPHOTOS": "yesPhotos",
                 "NOPHOTOS": "noPhotos", "SETLINESHAPEPW": "SetLineshapePW", "BLATTWEISSKOPF": "BlattWeisskopf"}
 PUNCT = {"_SEMICOLON": ";", "_COMMA": ",", "COLON": ":", "EQUAL": "="}
+import os as _os
+
+WORD_BOUND = 20 if _os.environ.get("VERIF_TIER") == "thorough" else 14       # lexeme bound (+1 following character) where no model name is in the context
 
 
 def in_alpha(ch):
@@ -82,7 +85,7 @@ def generate(sweep: Sweep, model_names: tuple[str, ...], parts: set[str] | None 
         names = [n for n, _ in terms]
         folded = {lit: (host, tname) for host, d in cbs.items() for lit, tname in d.items()}
         has_model = "MODEL_NAME" in names
-        lmax_word = (longest_model + 2) if has_model else 14
+        lmax_word = (longest_model + 2) if has_model else WORD_BOUND
         for T in sorted(F):
             if T == "$END":
                 continue
